@@ -273,7 +273,7 @@ def harnesses(tier):
                           replay='parse_fetch'))
     shapes = [[[1]], [[2], [1]], [[1, 1]]] if tier == 'quick' else \
         [[[1]], [[2], [1]], [[1, 1]], [[2, 2], [2]], [[1], [1], [1]], [[3], [3]]]
-    for n1, n2 in ([(3, 3), (4, 4)] if tier == 'quick' else [(3, 3), (4, 4), (5, 5), (3, 6), (8, 8)]):
+    for n1, n2 in ([(3, 3), (4, 4)] if tier == 'quick' else [(3, 3), (4, 4), (5, 5), (3, 6), (6, 6)]):
         hs.append(Harness('append_two[len=%d,%d]' % (n1, n2), _h_append_two(n1, n2), {'len1': n1, 'len2': n2, 'bytes': '0x21..0x7e except colon'},
                           replay='append_two', task_budget=60))
     for sh in shapes:
